@@ -181,6 +181,11 @@ class Piece:
         return self.resub('R3', r'for \((\w+), &(\w+)\) in ([\w\.]+)\.iter\(\)\.enumerate\(\) \{',
                           r'for \1 in 0..\3.len() { let \2 = \3[\1];')
 
+    def R3b(self):
+        """`for (i, x) in E.iter().enumerate() {` (x bound by reference) -> `for i in 0..E.len() { let x = &E[i];`"""
+        return self.resub('R3', r'for \((\w+), (\w+)\) in ([\w\.]+)\.iter\(\)\.enumerate\(\) \{',
+                          r'for \1 in 0..\3.len() { let \2 = &\3[\1];')
+
     def R4(self):
         t = self.text
         t, n1 = re.subn(r'"[^"\n]*"\.to_string\(\)', 'msg()', t)
@@ -356,7 +361,7 @@ class Piece:
         clauses = {'requires': [], 'ensures': [], 'decreases': []}
         for kind, name, expr, props in self.contract:
             clauses[kind].append((name, expr))
-        if twin and (clauses['requires'] or clauses['ensures']) and not self.is_trusted_body():
+        if twin and self.label in twin and (clauses['requires'] or clauses['ensures']) and not self.is_trusted_body():
             clauses['ensures'].append(('VACUITY', 'false'))
         ctext = ''
         for kind in ('requires', 'ensures', 'decreases'):
@@ -849,28 +854,42 @@ def run_unit(unit, workdir, tier='quick', seeds=(), keep=True):
     out['raw_stderr'] = res['stderr'][-20000:]
     if not a['failures'] and not a['undecided'] and a['success'] is not True:
         out['undecided'].append('verus did not report success')
-    # vacuity twin
+    # vacuity twin(s): `ensures false` must be refuted for every contracted function.  A callee carrying `false`
+    # would make its callers vacuous, so functions that call each other are put into different twin runs.
     if not out['failures'] and not out['undecided']:
-        twin = unit.render(twin=True)
-        tpath = os.path.join(workdir, unit.name + '__twin.rs')
-        open(tpath, 'w').write(twin)
-        tres = run_verus(tpath, workdir, rlimit=unit.rlimit, edition2024=unit.edition2024)
-        ta = analyse(unit, twin, tres, twin=True)
-        contracted = [p.full_label() for p in unit.pieces.values() if p.kind == 'fn' and not p.is_trusted_body() and any(k in ('requires', 'ensures') for k, *_ in p.contract)]
-        refuted = set()
-        for f in ta['failures']:
-            if f['obligation'].endswith('#VACUITY'):
-                refuted.add(f['obligation'].rsplit('::post#VACUITY', 1)[0])
-        # an rlimit on the twin means `false` was not provable within the limit: not vacuous
-        rl = [u for u in ta['undecided'] if 'esource limit' in u or 'rlimit' in u]
-        vac = [c for c in contracted if c not in refuted]
+        contracted = [p for p in unit.pieces.values() if p.kind == 'fn' and not p.is_trusted_body() and any(k in ('requires', 'ensures') for k, *_ in p.contract)]
+        names = {p.label: re.search(r'\bfn\s+(\w+)', p.text).group(1) for p in contracted}
+        classes = []
+        for p in contracted:
+            placed = False
+            for cl in classes:
+                if all(not re.search(r'\b%s\s*\(' % re.escape(names[q.label]), p.text.split('{', 1)[-1]) and
+                       not re.search(r'\b%s\s*\(' % re.escape(names[p.label]), q.text.split('{', 1)[-1]) for q in cl):
+                    cl.append(p)
+                    placed = True
+                    break
+            if not placed:
+                classes.append([p])
+        refuted, rl, twall, tcmds = set(), [], 0.0, []
+        for ci, cl in enumerate(classes):
+            twin = unit.render(twin={p.label for p in cl})
+            tpath = os.path.join(workdir, '%s__twin%d.rs' % (unit.name, ci))
+            open(tpath, 'w').write(twin)
+            tres = run_verus(tpath, workdir, rlimit=unit.rlimit, edition2024=unit.edition2024)
+            ta = analyse(unit, twin, tres, twin=True)
+            for f in ta['failures']:
+                if f['obligation'].endswith('#VACUITY'):
+                    refuted.add(f['obligation'].rsplit('::post#VACUITY', 1)[0])
+            # an rlimit on the twin means `false` was not provable within the limit: not vacuous
+            rl += [u for u in ta['undecided'] if 'esource limit' in u or 'rlimit' in u]
+            twall += ta['wall_s']
+            out['runs'].append({'kind': 'vacuity-twin-%d' % ci, 'verified': ta['verified'], 'errors': ta['errors'], 'wall_s': ta['wall_s'], 'cmd': ta['cmd'], 'smt_ms': ta['smt_ms']})
+            if not keep:
+                os.unlink(tpath)
+        vac = [p.full_label() for p in contracted if p.full_label() not in refuted]
         if vac and not rl:
-            # functions whose twin neither failed nor timed out: contradictory precondition
             out['undecided'].append('vacuity guard: `ensures false` verified for %s' % vac)
-        out['vacuity'] = {'contracted': len(contracted), 'refuted_false': len(refuted), 'rlimit': len(rl), 'wall_s': ta['wall_s']}
-        out['runs'].append({'kind': 'vacuity-twin', 'verified': ta['verified'], 'errors': ta['errors'], 'wall_s': ta['wall_s'], 'cmd': ta['cmd'], 'smt_ms': ta['smt_ms']})
-        if not keep:
-            os.unlink(tpath)
+        out['vacuity'] = {'contracted': len(contracted), 'refuted_false': len(refuted), 'rlimit': len(rl), 'twin_runs': len(classes), 'wall_s': twall}
     # brittleness: extra seeds (thorough)
     if not out['failures'] and not out['undecided']:
         for sd in seeds:
